@@ -79,14 +79,15 @@ func ovCount(k string) {
 }
 
 type World struct {
-	ov     *overlap
-	mu     sync.Mutex
-	log    []logItem
-	local  *spine.DeviceLocal
-	ents   map[string]api.EntityLocalInterface
-	peers  map[int64]*peerRec
-	curOp  int64
-	closed bool
+	ov      *overlap
+	mu      sync.Mutex
+	log     []logItem
+	local   *spine.DeviceLocal
+	ents    map[string]api.EntityLocalInterface
+	peers   map[int64]*peerRec
+	curOp   int64
+	readCtr int64 // counter of the listing reads sent on behalf of peers
+	closed  bool
 }
 
 type writer struct {
